@@ -880,8 +880,11 @@ impl<'de, R: Read<'de>> Parser<R> {
 
     fn expect_ident(&mut self, ident: &[u8]) -> Result<()> {
         for c in ident {
-            if Some(*c) != self.next_char()? {
-                return Err(self.error(ErrorCode::ExpectedSomeIdent));
+            match self.next_char()? {
+                Some(next) if next == *c => {}
+                Some(_) => return Err(self.error(ErrorCode::ExpectedSomeIdent)),
+                // The input ended inside the identifier
+                None => return Err(self.error(ErrorCode::EofWhileParsingValue)),
             }
         }
 
